@@ -14,6 +14,8 @@ type ClientService struct {
 	Conn      *websocket.Conn
 	Mutex     sync.Mutex
 	Responses map[string]chan []byte
+	// listener requests of several agents wait for answers of one client at the same time
+	ResponsesMtx sync.Mutex
 
 	// Done is closed when the service client has gone away: whoever waits for an
 	// answer of this client must stop waiting then
